@@ -30,7 +30,7 @@ LATTICE = [0, 1, 2, 3]
 STAGE = st.fixed_dictionaries({
     "mode": st.sampled_from(["deferred", "deferred", "sync", "chained", "fired"]),      # fired: returns an already-fired Deferred
     "delay": st.sampled_from(LATTICE),
-    "result": st.sampled_from(["ok", "ok", "ok", "ok", "ok", "ok", "error", "fail", "skip", "error_falsy", "kbi"]),   # error_falsy: bool() is False; kbi: KeyboardInterrupt raised by user code
+    "result": st.sampled_from(["ok", "ok", "ok", "ok", "ok", "ok", "error", "fail", "skip", "error_falsy", "kbi", "kbi", "sysexit", "genexit"]),   # error_falsy: bool() is False; kbi / sysexit / genexit: KeyboardInterrupt / SystemExit / GeneratorExit raised by user code
     "value": st.sampled_from([None, None, "Foo", 0, [], True]),       # what a successful stage returns / its Deferred fires with
     "expect": st.sampled_from([False] * 9 + [True]),                  # the stage records a failed expectThat
     "never": st.sampled_from([False] * 9 + [True]),
@@ -51,7 +51,8 @@ QUIET = st.fixed_dictionaries({
     "mode": st.sampled_from(["deferred", "deferred", "sync", "chained", "fired"]), "delay": st.sampled_from(LATTICE), "result": st.just("ok"),
     "value": st.sampled_from([None, "Foo", 0, []]), "expect": st.just(False),
     "never": st.just(False), "leave_call": st.none(), "log_err": st.just("no"), "drop_failed": st.just(False)})
-SINGLE_FAULT = st.sampled_from([("expect", True), ("result", "kbi"), ("result", "error"), ("result", "fail"), ("result", "skip"), ("result", "error_falsy"), ("result", "error"),
+NONEXC = {"kbi": KeyboardInterrupt, "sysexit": SystemExit, "genexit": GeneratorExit}
+SINGLE_FAULT = st.sampled_from([("expect", True), ("result", "kbi"), ("result", "sysexit"), ("result", "genexit"), ("result", "error"), ("result", "fail"), ("result", "skip"), ("result", "error_falsy"), ("result", "error"),
                                 ("log_err", "one"), ("log_err", "two_flush_one"), ("drop_failed", True), ("leave_call", 5), ("never", True)])
 
 
@@ -88,7 +89,8 @@ def model(spec):
         stages["cleanup%d" % i] = c
     pending = ["setUp"]
     terminated = None
-    propagates = False          # user code raised KeyboardInterrupt: reported as an error and re-raised by run()
+    propagates = False          # user code raised KeyboardInterrupt (SystemExit, GeneratorExit): reported as an error and re-raised by run()
+    may_propagate = False       # ... by a cleanup that was not the last failing one: the runner keeps one exception (DESIGN 11.2); either is admitted
     last_failed_cleanup = None
     setup_ok = True
     queue = ["setUp", "test", "tearDown"] + ["cleanup%d" % i for i in reversed(range(len(spec["cleanups"])))]
@@ -130,14 +132,16 @@ def model(spec):
             tie = True
         t = fire
         if s["result"] != "ok":
-            bad.add({"error": "error", "error_falsy": "error", "fail": "failure", "skip": "skip", "kbi": "error"}[s["result"]])
+            bad.add({"error": "error", "error_falsy": "error", "fail": "failure", "skip": "skip", "kbi": "error", "sysexit": "error", "genexit": "error"}[s["result"]])
             if name.startswith("cleanup"):
                 last_failed_cleanup = s["result"]       # the runner keeps the last failing cleanup's exception (DESIGN 11.2)
-            elif s["result"] == "kbi":
+                if s["result"] in NONEXC:
+                    may_propagate = True
+            elif s["result"] in NONEXC:
                 propagates = True
             if name == "setUp":
                 setup_ok = False
-    if last_failed_cleanup == "kbi":
+    if last_failed_cleanup in NONEXC:
         propagates = True
     if terminated:
         bad.add("error")
@@ -149,7 +153,7 @@ def model(spec):
             tie = True
     if ti is not None and ti == end and not terminated:
         tie = True
-    return {"log": log, "bad": bad, "tie": tie, "end": end, "terminated": terminated, "propagates": propagates}
+    return {"log": log, "bad": bad, "tie": tie, "end": end, "terminated": terminated, "propagates": propagates, "may_propagate": may_propagate or propagates}
 
 
 _QUIET = [False]
@@ -209,7 +213,7 @@ def run_case(spec):
             def exc():
                 from vp.programs import FalsyError
                 return {"error": RuntimeError("stage-MARK"), "fail": case.failureException("stage-MARK"), "error_falsy": FalsyError("stage-MARK"),
-                        "kbi": KeyboardInterrupt("stage-MARK"),
+                        "kbi": KeyboardInterrupt("stage-MARK"), "sysexit": SystemExit("stage-MARK"), "genexit": GeneratorExit("stage-MARK"),
                         "skip": case.skipException("stage-MARK")}[s["result"]]
             if s.get("expect"):
                 from testtools.matchers import Equals
@@ -283,10 +287,10 @@ def run_case(spec):
             raised = e
         names = [e[0] for e in res.events]
         core = [n for n in names if n in ("startTest", "stopTest") or n in OUTCOMES]
-        if raised is not None and not (m["propagates"] and isinstance(raised, KeyboardInterrupt)):
+        if raised is not None and not (m["may_propagate"] and isinstance(raised, tuple(NONEXC.values()))):
             vs.append(V("run-raises", type(raised).__name__, "run() raised %r" % (raised,)))
         if m["propagates"] and not m["terminated"] and not m["tie"] and raised is None:
-            vs.append(V("outcome", "interrupt-swallowed", "user code raised KeyboardInterrupt; run() returned normally (outcomes %r)" % ([e[0] for e in res.events if e[0] in OUTCOMES],)))
+            vs.append(V("outcome", "interrupt-swallowed", "user code raised KeyboardInterrupt / SystemExit / GeneratorExit; run() returned normally (outcomes %r)" % ([e[0] for e in res.events if e[0] in OUTCOMES],)))
         if not (len(core) == 3 and core[0] == "startTest" and core[1] in OUTCOMES and core[2] == "stopTest"):
             vs.append(V("bracket", "shape", "events %r, expected startTest / one outcome / stopTest" % (core,)))
             out = None
@@ -517,9 +521,30 @@ def interrupt_between_stages():
                                "suppress": False, "store": False, "ties": ties, "followup": "fresh-sync"}
 
 
+def timeout_at_completion():
+    """Exhaustive: the timeout elapses at the very instant the awaited Deferred of stage k fires (with a value or
+    with an error), every order among the calls due together; all other stages are quiet and synchronous."""
+    def quiet(mode, delay, result="ok"):
+        return {"mode": mode, "delay": delay, "result": result, "value": None, "expect": False, "never": False,
+                "leave_call": None, "log_err": "no", "drop_failed": False}
+    names = ["setUp", "test", "tearDown", "cleanup0"]
+    for variant in ("plain", "broken"):
+        for k in range(4):
+            for delay in (1, 2, 3):
+                for result in ("ok", "error", "fail"):
+                    for mode in ("deferred", "chained"):
+                        for ties in ([], [1], [0, 1], [1, 0], [1, 1], [2], [1, 2]):
+                            stages = {n: quiet("sync", 0) for n in names}
+                            stages[names[k]] = quiet(mode, delay, result)
+                            yield {"setUp": stages["setUp"], "test": stages["test"], "tearDown": stages["tearDown"],
+                                   "cleanups": [stages["cleanup0"]], "timeout": delay, "interrupt": None, "variant": variant,
+                                   "suppress": False, "store": False, "ties": ties, "followup": "fresh-sync"}
+
+
 def subchecks(tier):
     q = tier == "quick"
     return [Sub("async_programs", run_case, CASE, 4000 if q else 100000),
             Sub("interrupt_between_stages", run_case, enum=interrupt_between_stages, enum_complete=True),
+            Sub("timeout_at_completion", run_case, enum=timeout_at_completion, enum_complete=True),
             Sub("real_reactor_differential", run_differential, s_insensitive(), 60 if q else 1500, shrink=False,
                 note="timing-insensitive programs run on the virtual AND on Twisted's real global reactor; observations must agree")]
